@@ -378,7 +378,7 @@ static void run_hist(const Args &a, long cs, const std::string &judged) {
 	}
 	int nops = r.range(1, 5);
 	for (int op = 0; op < nops; op++) {
-		switch (r.below(9)) {
+		switch (r.below(11)) {
 		case 0: case 1: { std::vector<size_t> p = rand_perm(r, T->get_ndim()); hist += "permute" + jarr(p) + ";"; phase_log("history: permuteDimensions"); T->permuteDimensions(p); break; }
 		case 2: case 3: { unsigned dim; std::vector<double> tau; if (!rand_kernel(r, *T, dim, tau)) break; bool rep = false; for (uint64_t i = 1; i < T->get_nknots(dim); i++) if (T->get_knot(dim, i) == T->get_knot(dim, i - 1)) rep = true; if (rep) break; // repeated knots in the convolved dimension: recorded C14 finding (NaN coefficients)
 			hist += "convolve(dim" + std::to_string(dim) + "," + std::to_string(tau.size()) + "knots);"; phase_log("history: convolve"); T->convolve(dim, tau.data(), tau.size()); break; }
@@ -386,6 +386,8 @@ static void run_hist(const Args &a, long cs, const std::string &judged) {
 		case 5: { hist += "move;"; phase_log("history: move construction"); std::unique_ptr<Table> N(new Table(std::move(*T))); T = std::move(N); break; }
 		case 6: { hist += "refused-requests;"; phase_log("history: refused requests"); std::vector<size_t> p(T->get_ndim(), 0); if (T->get_ndim() == 1) p[0] = 1; try { T->permuteDimensions(p); } catch (std::exception &) { } double kn[2] = {0.5, -0.5}; try { T->convolve(0, kn, 2); } catch (std::exception &) { } try { T->convolve(T->get_ndim(), kn, 2); } catch (std::exception &) { } break; }
 		case 7: { hist += "grideval;"; phase_log("history: grideval"); std::vector<std::vector<double>> g(T->get_ndim()); for (unsigned d = 0; d < T->get_ndim(); d++) for (int i = 0; i < 3; i++) g[d].push_back(T->get_knot(d, 0) + (T->get_knot(d, T->get_nknots(d) - 1) - T->get_knot(d, 0)) * r.U()); auto res = T->grideval(g); break; }
+		case 8: case 9: { hist += "evaluate;"; phase_log("history: evaluation"); unsigned n0 = T->get_ndim(); std::vector<double> x(n0); std::vector<int> c(n0); auto E = T->get_evaluator<double>(); volatile double sink = 0;
+			for (int q = 0; q < 3; q++) { for (unsigned d = 0; d < n0; d++) x[d] = T->get_knot(d, 0) + (T->get_knot(d, T->get_nknots(d) - 1) - T->get_knot(d, 0)) * r.U(); sink = (*T)(x.data()); sink = E(x.data(), 0); if (T->searchcenters(x.data(), c.data())) { sink = T->ndsplineeval<float>(x.data(), c.data(), 0); sink = T->ndsplineeval<double>(x.data(), c.data(), 1); std::vector<unsigned> de(n0, 0); de[r.below(n0)] = 1; sink = T->ndsplineeval_deriv(x.data(), c.data(), de.data()); if (n0 < 8) { std::vector<double> g(n0 + 1); T->ndsplineeval_gradient(x.data(), c.data(), g.data()); } } } (void)sink; break; }
 		default: { hist += "write_key;"; phase_log("history: write_key/remove_key"); T->write_key("HISTKEY", (int)r.below(100)); if (r.coin(0.5)) T->remove_key("KEY0"); break; }
 		}
 		bool fin = true; for (uint64_t i = 0; i < T->get_ncoeffs(); i++) if (!std::isfinite(T->get_coefficients()[i])) fin = false; if (!fin) { note("hist:history-produced-non-finite-coefficients(skipped)"); return; }
@@ -393,7 +395,9 @@ static void run_hist(const Args &a, long cs, const std::string &judged) {
 	// the fresh twin: same observable content, no history
 	Spec fs = full_spec_of(*T); fs.flavor = "hist-twin"; Table F; if (!load(F, fs)) { viol(prop_id() + ":" + judged + ":table-with-a-history-cannot-be-reloaded-from-its-observable-content", "{\"history\":" + jstr(hist) + ",\"table\":" + s.brief() + "}"); return; }
 	std::string hj = "{\"history\":" + jstr(hist) + ",\"start\":" + s.full_json() + "}"; context(hj);
-	{ std::string d0 = table_diff(*T, F, r, 4); if (!d0.empty()) { note("hist:twin-differs-before-the-judged-operation:" + d0); if (a.verbose) fprintf(stderr, "twin differs: %s\n", d0.c_str()); return; } }
+	// the table with a history against a fresh load of its own observable content: whatever differs now is state the getters do not show but later calls depend on
+	{ std::string d0 = table_diff(*T, F, r, judged == "C01hist" ? 30 : 4); if (!d0.empty()) { viol(prop_id() + ":" + judged + ":table-with-a-history-differs-from-a-fresh-load-of-its-own-observable-content:" + d0, hj); return; } }
+	if (judged == "C01hist") { count("hist:histories"); count("hist:history-length:" + std::to_string(nops)); count("hist:judged-evaluation-sets"); distinct(hash_mix(hash_str(hist), s.hash())); if (cs % 40 == 0) sample("{\"judged\":\"evaluation\",\"history\":" + jstr(hist) + ",\"table\":" + s.brief() + "}"); return; }
 	count("hist:histories"); count("hist:history-length:" + std::to_string(nops)); distinct(hash_mix(hash_str(hist), s.hash()));
 	std::string key;
 	if (judged == "C15hist") { std::vector<size_t> p = rand_perm(r, T->get_ndim()); phase_log("judged: permuteDimensions"); T->permuteDimensions(p); F.permuteDimensions(p); key = "permuteDimensions"; count("hist:judged-permutations"); }
